@@ -212,11 +212,14 @@ CHECKS = {
  "C11": dict(
     text="Lean 4 theorems about the model of _setitem (this − restriction + embedded value): selected entries take the value, all others "
          "are unchanged, for scalar and tensor values, every number of modes/sizes/ranks/formats and every selection start+i·step; "
-         "histories of assignments by induction. Model (incl. key normalisation, value conversion, singleton modes at integer positions, "
+         "histories of assignments by induction; and for the WHOLE routine Tensor.setitem (key processing, shape check, absorption of Tucker "
+         "factors, the empty-selection shortcut): setitem_scalar, setitem_tensor (compressed value, any formats), setitem_dense (dense value "
+         "through _full_rank_tt, C01.roundtrip) — the routine succeeds and selected entries take the value while all others keep theirs. Model (incl. key normalisation, value conversion, singleton modes at integer positions, "
          "empty selections, shape errors) tied to /repo by bit-exact comparison of all cores after every step of generated histories.",
-    note="Trusted: Lean kernel + standard axioms; harness/driver glue; NumPy assignment as oracle; sampling correspondence. The wrapper "
-         "composition (key normalisation + dense-array conversion + integer positions) is listed as an open statement in Props/C11.lean; "
-         "its pieces are proved (C11.assign_*, C01.roundtrip, C03.getitem_tensor) and the composed model is compared with the code.",
+    note="Trusted: Lean kernel + standard axioms; harness/driver glue; NumPy assignment as oracle; sampling correspondence. The wrapper theorems take "
+         "what key processing produced as hypotheses (characterised in C03) together with sels.length = t.length; compressed values under "
+         "keys with integer entries (singleton modes re-inserted through getitem) remain an open statement in Props/C11.lean; the composed "
+         "model is compared with the code on every run, including a malformed-key stream that must raise and leave t unchanged.",
     tech="Lean 4 proof (restriction/embedding lemmas + C02 add/sub theorems; induction over the history) + differential correspondence",
     ref="§3 C11"),
  "C03": dict(
